@@ -349,6 +349,8 @@ class EvtModel:
 class ReaderLoop:
     """cut-point contract of `while True` in thread_reader: the size parameters are loop constants (never assigned in the body);
     per-iteration locals are re-assigned before use; self.as_bgr is havocked"""
+    heap_keeps = (('deque', 'log'),)     # ghost log of queued frames: append-only, the size obligations are per entry
+
     def __init__(self, me):
         self.me = me
 
@@ -459,7 +461,87 @@ class VideoReaderUnit(Unit):
         return {'confirmed': any(key in b for b in bad), 'inputs': inputs, 'observed': f'result {rh}x{rw} (h x w)', 'violated_clauses': bad}
 
 
+class TwoFramesUnit(VideoReaderUnit):
+    """BOUNDED in the number of frames (2), unbounded in their sizes: the real loop of thread_reader is unrolled for a stream of two frames of DIFFERENT symbolic
+    sizes followed by end-of-stream, so state carried from one frame to the next is exercised (the cut-point proof above treats every iteration from a generic state)"""
+    name = 'VideoReader.thread_reader, two consecutive frames of different sizes (loop unrolled)'
+    required_covers = ('two frames queued',)
+    bounded = {'frames per stream': '2 (sizes symbolic)'}
+    mutants = ()
+
+    def shapes(self, tier):
+        return [(mode, asp, None) for mode in ('maxsize', 'resize') for asp in ('x', '+')]
+
+    def run(self, shape, dec):
+        mode, asp, interp = shape
+        hs = [z3.Int('h1'), z3.Int('h2')]
+        ws = [z3.Int('w1'), z3.Int('w2')]
+        H, W = z3.Ints('H W')
+        ex = new_exec(dec, VIN, assumptions=dims_pre(*hs, *ws, H, W))
+        setup(ex)
+        ex.models.update(deque=DequeModel, evt=type('E', (), {'m_is_set': staticmethod(lambda ex_, o: False)}))
+        size = (W, asp, H, interp)
+        imgs = [image(hs[0], ws[0], 3), image(hs[1], ws[1], 3), None]
+        me = Obj('VideoReader', cond=None, maxsize=size if mode == 'maxsize' else None, resize=size if mode == 'resize' else None, stop_evt=Obj('evt'),
+                 read_one=Native(lambda ex_: imgs.pop(0), 'read_one'), deque=Obj('deque', log=[]), as_bgr=True, state=1)
+        for g in ex.modules.values():
+            g.update(time_ns=Native(lambda ex_: fresh_int('t'), 'time_ns'))
+        ex.model_vars = dict(h1=hs[0], w1=ws[0], h2=hs[1], w2=ws[1], H=H, W=W)
+        ex.replay_info = dict(mode=mode, aspect=asp, interp=interp, two_frames=True)
+        try:
+            ex.call_closure(closure(VIN, 'VideoReader.thread_reader'), [me], {})
+        except ExcSig as e:
+            ex.oblige(f'C17.no_failure: thread_reader raises {e.cls} ({e.origin})', False)
+            ex.outcome = 'raise'
+            return ex
+        ex.outcome = 'return'
+        log = [x[0] for x in me.f['deque'].f['log'] if x[0] is not None]
+        ex.oblige('C17.stream: both frames are delivered', len(log) == 2)
+        if len(log) == 2:
+            ex.cover('two frames queued')
+            # the first frame is covered (from a generic state) by the cut-point unit; here: the SECOND frame, whose treatment must not depend on the first
+            out = log[1]
+            h, w, rh, rw = hs[1], ws[1], zi(out.f['h']), zi(out.f['w'])
+            if mode == 'maxsize':
+                ex.oblige('C17.max_within: maxsize result no larger than W x H (second frame of a stream)', z3.And(rw <= W, rh <= H))
+                ex.oblige('C17.max_never_enlarges: maxsize never enlarges (second frame of a stream)', z3.And(rw <= w, rh <= h))
+                ex.oblige('C17.max_identity: a second frame already inside the bounds is returned unchanged', z3.Implies(z3.And(w <= W, h <= H), z3.And(rw == w, rh == h)))
+            elif asp == '+':
+                ex.oblige('C17.resize_exact: resize returns exactly the requested size (second frame of a stream)', z3.And(rw == W, rh == H))
+            else:
+                ex.oblige('C17.resize_largest_inside: aspect-keeping resize stays inside W x H (second frame of a stream)', z3.And(rw <= W, rh <= H))
+        return ex
+
+    def replay(self, failure):
+        import numpy as np, collections, threading
+        import openfilter.filter_runtime.filters.video_in as vin
+        m, info = failure['model'] or {}, failure['extra']
+        H, W = m.get('H', 120), m.get('W', 160)
+        sizes = [(min(m.get('h1', 80), 3000), min(m.get('w1', 100), 3000)), (min(m.get('h2', 480), 3000), min(m.get('w2', 640), 3000))]
+        spec = f'{W}{info["aspect"]}{H}'
+        vr = vin.VideoReader.__new__(vin.VideoReader)
+        vr.cond = None
+        vr.maxsize = vin.parse_size(spec) if info['mode'] == 'maxsize' else None
+        vr.resize = vin.parse_size(spec) if info['mode'] == 'resize' else None
+        vr.stop_evt = threading.Event()
+        frames = [np.zeros((h, w, 3), np.uint8) for h, w in sizes]
+        vr.read_one = lambda: frames.pop(0) if frames else None
+        vr.deque = collections.deque(maxlen=10)
+        vr.as_bgr = True
+        try:
+            vr.thread_reader()
+        except Exception as e:
+            return {'confirmed': True, 'inputs': dict(option=f'{info["mode"]}={spec}', frames=sizes), 'observed': f'raises {type(e).__name__}: {e}'}
+        outs = [im.shape[:2] for im, _ in vr.deque if im is not None]
+        bad = []
+        for (h, w), (rh, rw) in zip(sizes, outs):
+            ok = native_size_post('maxsize', info['aspect'] == 'x', h, w, H, W, rh, rw) if info['mode'] == 'maxsize' else ({'resize_exact': (rw, rh) == (W, H)} if info['aspect'] == '+' else {'inside': rw <= W and rh <= H})
+            bad += [f'frame {h}x{w} -> {rh}x{rw}: {k}' for k, v in ok.items() if not v]
+        return {'confirmed': bool(bad), 'inputs': dict(option=f'{info["mode"]}={spec}', frames=sizes), 'observed': bad or outs, 'required': 'the size laws hold for every frame of the stream'}
+
+
 UNITS.append(VideoReaderUnit())
+UNITS.append(TwoFramesUnit())
 
 
 # ================================================================================================== Util.execute_xforms / execute_xform_box
